@@ -8,7 +8,7 @@ CLAIMED = {
     "C11": ("graph", "§6 C11", "Same exploration over 2-3 WBSs; TLC evaluates owner = reachability from the WBS roots after every call and that detached trees are accepted again."),
     "C15": ("graph", "§6 C15", "Same exploration; for every raising call TLC compares the complete projection before and after (ordered children, ordered link lists, owners, roots, attributes)."),
     "C16": ("graph", "§6 C16", "Same exploration; for every returning call TLC checks post-state in Effects(pre, action) (documented effect plus frame) and documented return values."),
-    "C17": ("calendar", "§6 C17", "Calendar expressions (every leaf definition, valid and invalid, alone and under every operator with every other leaf or number; seeded deeper trees) are built with the real classes, probed on every day of a window at two times of day and at validity boundaries, and searched in both directions with small horizons; TLC evaluates the same expression with Calendar.tla (exact rationals) and judges every observation."),
+    "C17": ("calendar", "§6 C17", "Calendar expressions (every leaf definition, valid and invalid, alone and under every operator with every other leaf or number; seeded deeper trees) are built with the real classes, probed on every day of a window at two times of day and at validity boundaries, and searched in both directions with small horizons that grow and shrink again on one resource object; the lists and tables handed to the constructors are edited after the call; TLC evaluates the same expression with Calendar.tla (exact rationals) and judges every observation."),
     "C02": ("sched", "§6 C02", "Scheduling inputs (every forest shape of <=3/4 tasks with seeded link placements on leaves and summaries, attributes, resources, calendars, flags, project start and clock; seeded random inputs up to 8-10 tasks) are executed by the real forward scheduler under a frozen clock; TLC evaluates C02's clauses of Sched.tla on each recorded execution (dates and the usage ledger)."),
     "C03": ("sched", "§6 C03", "Same executions, both schedulers; TLC replays the usage ledger row by row against the capacity computed from the calendar expression by Calendar.tla, and compares the report's totals, filtered views and resources."),
     "C04": ("sched", "§6 C04", "Same executions; TLC checks reserved work = remaining work, once per day, consistent with start/end, no rows for milestones/completed/summaries, user-fixed dates kept."),
@@ -19,8 +19,8 @@ CLAIMED = {
     "C14": ("sched", "§6 C14", "Same executions plus unschedulable inputs (external predecessor without dates, future fixed end, never-available resources, hierarchy-closed cycles), quotient calendars whose divisor is 0 on some days, float residues and mixed id types, under a watchdog; TLC classifies the outcome and demands RuntimeError exactly for Unschedulable(I)."),
     "C12": ("crit", "§6 C12", "CritPath.tla defines the zero-float leaves and, independently, the leaves on a longest chain; TLC checks the two definitions equal on every bounded input (MC_CritPath) and compares WBS.critical_path() of the real code with Critical(I) on every forest shape of <=4/5 tasks with link placements on leaves and summaries, ties, zero lengths, and integer/dyadic/decimal amounts, plus seeded random WBSs."),
     "C18": ("query", "§6 C18", "Query.tla defines Matches/Select for plain keywords, the twelve suffixes (with its own regular-expression search) and callables, and the effect of bulk assignment and remove_all; seeded worlds with present/absent/None attributes are queried through every list of the API and TLC compares the returned list (order and members), the unchanged world, the bulk-assigned attributes and the post-removal structure with the model."),
-    "C10": ("copy", "§6 C10", "In every reachable state of the real objects of the small universe (shared ids, 2 WBSs, links to outside tasks) each WBS is cloned and sub-treed for every selection of <=2 roots; TLC judges the copy against TaskGraph.tla's state: members, fresh objects, owner, field values, root order, hierarchy, links inside the selection reproduced, links to other members dropped, links to outside tasks kept on the same objects (mirror side included), WBS attributes, source unchanged; independence is probed by mutating each side."),
-    "C13": ("csv", "§6 C13", "CsvIO.tla models the file layout at the level of rows and cells (Rows) and the reading (Parse); TLC checks Parse(Rows(W)) ~ W and the fixpoint on every bounded world (MC_CsvIO) and compares, for seeded worlds with adversarial strings, boundary dates, ids 0/negative, sparse custom attributes: the decoded written file with Rows(W), read_csv(write_csv(w)) with W, files written by the harness in the documented layout (with and without BOM) with W, and byte equality of the second and third generation files."),
+    "C10": ("copy", "§6 C10", "In every reachable state of the real objects of the small universe (shared ids, 2 WBSs, links to outside tasks) each WBS is cloned and sub-treed for every selection of <=2 roots; TLC judges the copy against TaskGraph.tla's state: members, fresh objects, owner, field values, root order, hierarchy, links inside the selection reproduced, links to other members dropped, links to outside tasks kept on the same objects (mirror side included), WBS attributes, source unchanged; independence is probed by mutating each side; every second call comes after earlier copies, exports and a newly added attribute. The constructor form WBS(tasks=seq) is replayed against JudgeFlat as drift-only conformance."),
+    "C13": ("csv", "§6 C13", "CsvIO.tla models the file layout at the level of rows and cells (Rows) and the reading (Parse); TLC checks Parse(Rows(W)) ~ W and the fixpoint on every bounded world (MC_CsvIO) and compares, for seeded worlds with adversarial strings, boundary dates, ids 0/negative, sparse custom attributes: the decoded written file with Rows(W), read_csv(write_csv(w)) with W, files written by the harness in the documented layout (with and without BOM) with W, byte equality of the second and third generation files, and a read-edit-write-read history (hierarchy, links, attributes that were not columns of the file)."),
     "C19": ("render", "§6 C19", "Render.tla defines the Mermaid Gantt, Mermaid network and DHTMLX documents as abstract entry sequences/sets; seeded dated WBSs with sections, styles, milestones and adversarial single-line names are rendered by the real classes, decoded into entries by the harness (template markers, line patterns anchored on the known pool strings, json.loads) and compared by TLC: one task line per task under its section with id/dates/milestone flag, one edge per dependency and one Start edge per predecessor-free task, one JSON entry per task, uniquely numbered links, progress in 0..1, srcdoc = escaped document."),
     "C20": ("render", "§6 C20", "Render.tla defines the rows of a sheet (depth-first, children on/off) and the link cells; WBS/task/list print() and repr() with field selections (default, subsets, unknown, upper case), themes, None names and links leaving the WBS are decoded via the header offsets and compared by TLC: line count, order, 3-space indentation per level, equal line widths, separated columns, link and parent cells with the external marker, empty cells for unknown fields; usage tables have one line per day between first and last reservation."),
 }
